@@ -21,7 +21,7 @@ EXTRA = {}
 
 
 def _select(pid, tier, harnesses, only):
-    sel = [h for h in harnesses if h.prop == pid]
+    sel = [h for h in harnesses if h.prop == pid or pid in h.also]
     if only:
         sel = [h for h in sel if h.name in only or h.full in only]
     elif tier == "quick":
@@ -125,6 +125,18 @@ def replay_file(pid, path, harnesses):
     if data.get("engine") == "smt":
         import smtcheck
         return smtcheck.replay(data)
+    if data.get("engine") == "smt-table":
+        import smtcheck
+        import subprocess
+        smtcheck.build_tablegen()
+        p = subprocess.run([smtcheck.TABLEGEN, "decode"], input=json.dumps({"kind": data["decoder"], "bytes": data["bytes"]}) + "\n",
+                           capture_output=True, text=True, timeout=60)
+        print("replay: U+%04X through the real %s decoder -> %s" % (data["scalar"], data["decoder"], p.stdout.strip() or "<crash>"))
+        ch = chr(data["scalar"])
+        if ("Char('%s')" % ch) not in p.stdout and repr(ch) not in p.stdout:
+            print("VIOLATION property=%s replay=%s" % (pid, path))
+            return 1
+        return 0
     K.build_native()
     name = data["harness"]
     rc = 0
